@@ -4,13 +4,14 @@ import os, sys, random, itertools
 sys.path.insert(0, os.path.dirname(os.path.abspath(__file__)))
 from common import *
 import c10
+import c17
 
 ID = 'C18'
 PKG = 'control'
-PKG_OF = {'VerifC18Version': 'version', 'VerifC18Dep': 'dependency', 'VerifC18Arch': 'dependency', 'VerifC18Changelog': 'changelog', 'VerifC18Race': 'control'}
+PKG_OF = {'VerifC18Version': 'version', 'VerifC18Dep': 'dependency', 'VerifC18Arch': 'dependency', 'VerifC18Changelog': 'changelog', 'VerifC18Race': 'control', 'VerifC17Malformed': 'changelog'}
 REPLAY_TIMEOUT_MS = 120000
 ROOTS = [MOD + '/version.VerifC18Version', MOD + '/dependency.VerifC18Dep', MOD + '/dependency.VerifC18Arch', MOD + '/control.VerifC18Para',
-         MOD + '/control.VerifC18Typed', MOD + '/changelog.VerifC18Changelog']
+         MOD + '/control.VerifC18Typed', MOD + '/changelog.VerifC18Changelog', MOD + '/changelog.VerifC17Malformed']
 BOUNDS = {'quick': dict(version=5, arch=5, dep=4, para=5, changelog=4, typed=3), 'thorough': dict(version=6, arch=6, dep=5, para=6, changelog=6, typed=4)}
 CLS = {'version': [b' \t\n', b'0123456789', b':', b'-', b'.+~', b'abcXYZ'],
        'arch': [b'-', b' \t\n', b'a', b'n', b'y', b'l'],
@@ -23,7 +24,7 @@ META = dict(
     functions_encoded=['version.Parse', '(*Version).UnmarshalText', 'dependency.Parse', 'ParseArch', 'ParseArchitectures', 'control.NewParagraphReader', '(*ParagraphReader).Next',
                        'ParseDsc', 'ParseChanges', 'ParseControl', 'ParseBinaryIndex', 'ParseSourceIndex', 'changelog.Parse', 'changelog.ParseOne'],
     stubs=['as in C03, C05, C07, C10, C17'],
-    bounds={'quick': 'every byte string (all 256 values) of length <= 5 into version.Parse, <= 5 into ParseArch/ParseArchitectures, <= 4 into dependency.Parse, <= 5 into the paragraph reader, <= 4 into changelog.Parse; typed documents: a valid .dsc/.changes/control/Packages/Sources template with one field value (Version, Architecture, Build-Depends, Files, Binary, Installed-Size) replaced by every byte string of length <= 3; each template with a field name repeated in upper, lower and swapped case (exact spelling present or absent)',
+    bounds={'quick': 'every byte string (all 256 values) of length <= 5 into version.Parse, <= 5 into ParseArch/ParseArchitectures, <= 4 into dependency.Parse, <= 5 into the paragraph reader, <= 4 into changelog.Parse; typed documents: a valid .dsc/.changes/control/Packages/Sources template with one field value (Version, Architecture, Build-Depends, Files, Binary, Installed-Size) replaced by every byte string of length <= 3; each template with a field name repeated in upper, lower and swapped case (exact spelling present or absent); each template with every Go field name of its target struct as an additional field name; malformed whole changelog entries',
             'thorough': 'one more byte everywhere (changelog 6)'},
     outside_claim=['inputs above the bound (the statement says 64 KiB)', 'the race detector itself: concurrency safety is decided by non-interference - on every explored path no package-level variable is written - from which independence of concurrent calls on disjoint inputs follows', 'non-interference on paths not reachable within the bound'],
     assumptions=['determinism: each harness calls the entry point twice on the same input and compares the outcomes; the typed-document harness also compares the decoded fields of the two calls; map iteration (none in these parsers on the unchanged tree) is explored in every rotation (chosen per map object, independently in the two calls)'])
@@ -52,6 +53,15 @@ def jobs(tier):
         for f in fields:
             for keep in (False, True):
                 js.append(dict(name='case_%d_%s_%d' % (kind, f.decode(), keep), kind='case', k=kind, field=f, keep=keep, n=0))
+    # every Go field name of the target structs used as a field name of the document (a field without a `control:` tag
+    # is looked up under its Go name; unexported fields must be passed over, not written to)
+    for kind in range(5):
+        js.append(dict(name='fieldnames_%d' % kind, kind='fieldnames', k=kind, n=0))
+    # whole changelog entries that are malformed in one place (the raw inputs above are too short to reach the later
+    # stages of the entry parser): value or error, never both - shared with C17
+    for what in ('indent', 'nohdr', 'baddate', 'nodate'):
+        for where, si in ((0, 0), (1, 6)):
+            js.append(dict(name='changelog_%s_%d' % (what, where), kind='c17bad', what=what, where=where, shape=si, L=1, n=0))
     js.sort(key=lambda j: -j['n'])
     return js
 
@@ -64,7 +74,9 @@ TEMPLATES = {0: b'Format: 1.0\nSource: s\nBinary: a, b\nArchitecture: any\nVersi
 
 
 def run_job(env, job):
-    if job['kind'] == 'raw':
+    if job['kind'] == 'c17bad':
+        r = c17.run_job(env, dict(job, kind='bad'))
+    elif job['kind'] == 'raw':
         what, n = job['what'], job['n']
         pkg, fn = ENTRY[what]
         s = symstr('s', n)
@@ -72,6 +84,30 @@ def run_job(env, job):
         cls = CLS[what] + [bytes(x for x in range(256) if x not in used)]
         assume = [in_set(s[pos], cls[ci]) for pos, ci in enumerate(job['part'])]
         r = run_harness(env, pkg, fn, [s], assume, unwind=4 * n + 60, sample='%s: every byte string of length %d, leading classes %r' % (fn, n, job['part']))
+    elif job['kind'] == 'fieldnames':
+        tmpl = TEMPLATES[job['k']]
+        T = MOD + '/control.'
+        types = {0: [T + 'DSC'], 1: [T + 'Changes'], 2: [T + 'SourceParagraph', T + 'BinaryParagraph'], 3: [T + 'BinaryIndex'], 4: [T + 'SourceIndex']}[job['k']]
+        paras = tmpl.split(b'\n\n')
+        v = symstr('v', 1)
+        extra = []
+        names = []
+        for i, t in enumerate(types):
+            present = {l.split(b':')[0] for l in paras[min(i, len(paras) - 1)].split(b'\n') if l[:1] not in (b' ', b'')}
+            add = ()
+            for f in env.prog.fields(t):
+                nm = f['name'].encode()
+                if nm in present or nm == b'Paragraph':
+                    continue
+                names.append(f['name'])
+                add += tuple(nm) + (58, 32) + tuple(v) + (10,)
+            extra.append(add)
+        out = ()
+        for i, para in enumerate(paras):
+            body = tuple(para.rstrip(b'\n')) + (10,)
+            out += (() if i == 0 else (10,)) + body + (extra[i] if i < len(extra) else ())
+        r = run_harness(env, 'control', 'VerifC18Typed', [job['k'], Str(out)], [in_set(v[0], b'a1 ')], unwind=600, timeout_ms=300000, interp_kw=dict(map_orders='rot1'),
+                        sample='typed document kind %d with every Go field name of %s as an additional field name (%d names, unexported ones included)' % (job['k'], ', '.join(t.rsplit('.', 1)[-1] for t in types), len(names)))
     elif job['kind'] == 'case':
         tmpl = TEMPLATES[job['k']]
         f = job['field']
